@@ -255,6 +255,42 @@ def main():
       viol.append({'key': 'C14:history-dependent', 'what':
                    f'quantize() after the history {hist} + load(target recipe) returns {o2[:16]} but a fresh '
                    f'Quantizer returns {ref[:16]} for equal (model, recipe, statistics)', 'input': inp})
+    # recipe EDITED after use (no load in between): rules, a calibrate / quantize,
+    # then an operation-specific rule entered under a regex the recipe already
+    # holds; the result must equal a fresh Quantizer given the exported recipe
+    qu = quantizer.Quantizer(bytearray(mb))
+    try:
+      qu.load_quantization_recipe(json.loads(json.dumps(rec)))
+      st0 = calibrate_all(qu, gg.random_inputs(mb, rng, 1), viol, inp, check_mut=False) \
+          if qu.need_calibration else None
+      if rng.random() < 0.7:
+        qu.quantize(st0)
+      regexes = [r['regex'] for r in qu.get_quantization_recipe()]
+      keys = sorted(set(k_ for k_, _ in gr.model_scopes(mb) if k_))
+      ncfg = gr.named_configs()
+      edits = []
+      for _ in range(rng.randint(1, 2)):
+        if not regexes or not keys:
+          break
+        cn = rng.choice(gr.STATIC + gr.FLOATC + ['nq'])
+        edits.append((rng.choice(regexes), rng.choice(keys), ncfg[cn][0], cn))
+      acc = gr.apply_rules(qu, edits)
+    except Exception:  # pylint: disable=broad-except
+      acc = []
+    if acc:
+      rec_u = json.loads(json.dumps(qu.get_quantization_recipe()))
+      stats_u, out_u, _ = target_output(mb, rec_u, data, None, inp)
+      ref_u = 'raise:' + type(out_u).__name__ if isinstance(out_u, Exception) else sha(out_u)
+      try:
+        o3 = sha(qu.quantize(copy.deepcopy(stats_u)).quantized_model)
+      except Exception as e:  # pylint: disable=broad-except
+        o3 = 'raise:' + type(e).__name__
+      dist['recipe_edited_after_use'] += 1
+      if o3 != ref_u:
+        viol.append({'key': 'C14:history-dependent', 'what':
+                     f'quantize() after load(recipe), calibrate/quantize and the rule edits {acc} returns {o3[:16]} '
+                     f'but a fresh Quantizer given the exported recipe returns {ref_u[:16]}',
+                     'input': dict(inp, edits=[list(a) for a in acc])})
     if len(samples) < 3:
       samples.append({'history': hist, 'sha256': ref[:16], 'n_rules': len(rec)})
   os.environ.pop(THR, None)
